@@ -32,6 +32,19 @@ CLAIMS = {
                 'Karn and retry-budget site facts are syntactic (guard text / argument text at the call sites).',
         'technique': 'Lean 4 proof (invariants + induction over op lists; linear arithmetic over Rat) on translator-generated defs and facts + differential replay under virtual time',
     },
+    'C17': {
+        'text': 'Scheduler half proved, negotiation half not claimed here. Lean theorems over the L0 model of pending_queue.go (all three policies, '
+                'the pendingQueue wrapper, the scheduler factories; every operation list): per-(stream, class) FIFO under every policy and across '
+                'mode switches, fragments of a message adjacent without interleaving, policy switched only when empty, exact nBytes/nChunks, '
+                'round-robin rounds and (d+1)*N starvation bound, WFQ tag invariants and least-(tag, stream id) service. WFQ fairness: the '
+                "statement's bound L_i/w_i + L_j/w_j is proved when no push falls between a peek and the pop of the chunk it selected; for ALL "
+                'operation lists the proved (and tight) bound is L_i/w_i + L_j/w_j + max_k L_k/w_k, and a kernel-checked witness shows the statement\'s '
+                'bound is exceeded with a stale peek (replayed on the Go code from corpus/C17/known). Model tied to the code by differential replay '
+                '(TestVerifPendQ, Float instance compared bit for bit) and executable predicates on the implementation\'s own pop sequence. '
+                'The negotiation half (I-DATA/I-FORWARD-TSN exactly when both sides enabled it, wrong kind => protocol-violation ABORT) is tied elsewhere / pending.',
+        'note': NOTE_COMMON + ' WFQ theorems are over exact rationals (float64 rounding not modelled in the theorems; identical for power-of-two weights).',
+        'technique': 'Lean 4 proof (invariants + potential functions, induction over op lists) + model/implementation differential replay',
+    },
 }
 
 E2E_NOTE = ('Evidence level is EXPLORATION until the system-level theorems (DESIGN §5, NetSys) are closed: real association pairs under testing/synctest virtual time '
@@ -59,6 +72,6 @@ CLAIMS.update({
 })
 
 _PENDING = 'check not built yet in this round (planned, see DESIGN.md §5/§8); not claimed until its theorems and correspondence run'
-NOT_APPLICABLE = {p: _PENDING for p in ['C03', 'C11', 'C12', 'C13', 'C17', 'C20']}
+NOT_APPLICABLE = {p: _PENDING for p in ['C%02d' % i for i in range(1, 21)] if p not in CLAIMS}
 
 NOTES = 'Family of technique: machine-checked proof in Lean 4. See DESIGN.md. Known findings: known_findings.txt.'
